@@ -441,14 +441,14 @@ def generate(tier, seed):
         base = _gen_file(random.Random(seed + 11), fmt, 3, True)
         for L in range(1, maxlen + 1):
             for idxs in itertools.product(range(len(MENU)), repeat=L):
-                if tier == 'thorough' and fmt != 'bed6' and L == 3 and rng.random() < 0.6:
+                if tier == 'thorough' and fmt != 'bed6' and L == 3 and rng.random() < 0.75:
                     continue
                 c = dict(base)
                 c['chunk'] = None
                 c['prog'] = _menu_prog(rng, fmt, 3, idxs)
                 cases.append(c)
     # (b) random files and programs, half of them in the clean profile (no known-finding trigger)
-    n_rand = 900 if tier == 'quick' else 9000
+    n_rand = 900 if tier == 'quick' else 4000
     for i in range(n_rand):
         fmt = FMT_ORDER[i % len(FMT_ORDER)]
         clean = (i // len(FMT_ORDER)) % 2 == 0
